@@ -193,17 +193,40 @@ def invalid_projection(rows, ids):
 
 
 # ---- calls under test ------------------------------------------------------------------------------
-def api_export(df, v, px, fmt, variant):
+def apply_hist(m, hist):
+    """The list operations of a case, performed on the live object (they leave non-default row labels behind)."""
+    for h in hist or []:
+        if h["op"] == "remove":
+            m.remove_feature("class", float(h["cls"]))
+            continue
+        idx = [i - 1 for i in h["idx"]]
+        n = m.df.shape[0]
+        if idx == sorted(idx) and len(set(idx)) == len(idx):
+            mask = np.zeros(n, dtype=bool)
+            mask[idx] = True
+            m.df = m.df[mask]                                   # a filtered list
+        elif sorted(idx) == list(range(n)):
+            key = np.empty(n)
+            key[idx] = np.arange(n, dtype=float)
+            m.df = m.df.assign(score=key).sort_values("score")     # a re-ordered list
+        else:
+            m.df = m.df.iloc[idx]
+
+
+def api_export(df, v, px, fmt, variant, hist=None):
     from cryocat import cryomotl
     tf, sf = fmt_strings(fmt)
     ver = VERSION[v]
     if variant % 3 == 0:
         m = cryomotl.RelionMotl(df, version=ver, pixel_size=px, binning=1.0)
+        apply_hist(m, hist)
         return m.create_relion_df(tomo_format=tf, subtomo_format=sf)
     if variant % 3 == 1:
         m = cryomotl.RelionMotl(df, binning=1.0)
+        apply_hist(m, hist)
         return m.create_relion_df(tomo_format=tf, subtomo_format=sf, version=ver, pixel_size=px, binning=1.0)
     m = cryomotl.emmotl2relion(df, relion_version=ver, pixel_size=px, binning=1.0)
+    apply_hist(m, hist)
     return m.create_relion_df(tomo_format=tf, subtomo_format=sf)
 
 
@@ -218,11 +241,16 @@ def api_import(rdf, v, px, variant, explicit_px=True):
     return cryomotl.relion2emmotl(rdf, relion_version=ver, pixel_size=pxa).df
 
 
-def api_write(df, path, v, px, fmt, optics, variant):
+def api_write(df, path, v, px, fmt, optics, variant, hist=None):
     from cryocat import cryomotl
     tf, sf = fmt_strings(fmt)
     ver = VERSION[v]
-    if variant % 2 == 0:
+    if hist:
+        m = cryomotl.RelionMotl(df, version=ver, pixel_size=px, binning=1.0) if variant % 2 == 0 else \
+            cryomotl.emmotl2relion(df, relion_version=ver, pixel_size=px, binning=1.0)
+        apply_hist(m, hist)
+        m.write_out(path, write_optics=optics, tomo_format=tf, subtomo_format=sf)
+    elif variant % 2 == 0:
         m = cryomotl.RelionMotl(df, version=ver, pixel_size=px, binning=1.0)
         m.write_out(path, write_optics=optics, tomo_format=tf, subtomo_format=sf)
     else:
@@ -296,7 +324,7 @@ class Runner:
         if op in ("export", "reimport"):
             # the list handed to cryoCAT carries default, permuted or gapped row labels; results are positional
             df = motlutil.vary_index(motl_df_from_parts(cs["parts"], rng), variant // 3)
-            rdf, err = core.call_guarded(api_export, df, v, px, cs["fmt"], variant)
+            rdf, err = core.call_guarded(api_export, df, v, px, cs["fmt"], variant, cs.get("hist"))
             if err is not None:
                 if op == "export":
                     self.fail("call_raises", "export: %s" % err, case, sig)
@@ -312,7 +340,7 @@ class Runner:
                     s2 = dict(sig, aliasing=True) if suffix else sig
                     self.compare_rows(project_relion(rdf, v, named), rel, fields, clause_of, fcase, s2, "exported table" + suffix)
                 judge(case, "")
-                self.rejudge_later(("export", len(cs["parts"])), case, judge)
+                self.rejudge_later(("export", len(case["rel"])), case, judge)
                 if do_file:
                     self.file_case(case, df, v, px, rng, variant, sig)
                 return
@@ -326,7 +354,7 @@ class Runner:
             if ok and invalid_projection([], ids):
                 self.fail("C03_HalfSets", "re-imported list: %s" % invalid_projection([], ids), case, sig)
             elif ok:
-                subsets = [1 if p["sid"] % 2 == 1 else 2 for p in cs["parts"]]
+                subsets = [1 if b["geom3"] % 2 == 1 else 2 for b in case["back"]]       # of the rows that were exported
                 self.traces.append(({"kind": "ids", "ids": ids, "subsets": subsets}, case, sig, "re-imported ids %s" % ids[:12]))
         elif op == "import":
             with_px = variant % 2 == 0
@@ -367,7 +395,7 @@ class Runner:
         optics = bool(case.get("optics")) and v >= 31        # for 3.0 prepare_optics_data raises by design (scope decision)
         fsig = dict(sig, op="write", optics=optics)
         path = os.path.join(ctx.workdir, "rel_%d_%d.star" % (os.getpid(), self.n))
-        _, err = core.call_guarded(api_write, df, path, v, px, cs["fmt"], optics, variant // 3)
+        _, err = core.call_guarded(api_write, df, path, v, px, cs["fmt"], optics, variant // 3, cs.get("hist"))
         if err is not None:
             self.fail("call_raises", "write_out: %s" % err, case, fsig)
             return
@@ -386,7 +414,8 @@ class Runner:
             if DEMO == "corrupt_loaded" and loaded["rows"]:
                 loaded["rows"][0]["R"] = [2, 1, 3, 1, -1, 1] if loaded["rows"][0]["R"] != [2, 1, 3, 1, -1, 1] else [1, 2, 3, 1, 1, 1]
         os.remove(path)
-        rec = {"kind": "file", "v": v, "fmt": cs["fmt"], "parts": cs["parts"], "optics": optics, "lines": lines,
+        rec = {"kind": "file", "v": v, "fmt": cs["fmt"], "parts": cs["parts"], "hist": cs.get("hist") or [], "optics": optics,
+               "lines": lines,
                "spell": spelling(), "loaded": _jsonable(loaded)}
         head = su.b2s(sum([l + [10] for l in lines[:30]], []))[:700]
         self.traces.append((rec, case, fsig, "load error: %s; projection: %s; file head: %r" % (lerr, bad or "ok", head)))
@@ -466,13 +495,16 @@ def gen_case(rng, n):
     sids = rng.sample(range(1, 20 * n + 50), n)
     if rng.random() < 0.25:
         sids = [2 * s for s in sids] if rng.random() < 0.5 else [2 * s + 1 for s in sids]      # a single half-set
-    ntomo = rng.randint(1, 6)
+    ntomo = rng.randint(1, 6) if rng.random() < 0.5 else min(n, 60)
     tomos = sorted(rng.sample(range(1, 90), ntomo))
+    clspool = rng.sample(range(1, 3 * n + 10), n)
     rows = []
     for i in range(n):
         e = [rng.randint(0, 3), rng.choice([0, 1, 2, 2, 0, 3]), rng.randint(0, 3)]
         pos = [rng.randint(-400, 16000) for _ in range(3)]
-        base = {"tomo": rng.choice(tomos), "sid": sids[i], "cls": rng.randint(1, 12), "e": e}
+        # mostly distinct classes (a permutation of the rows is visible), some repeated (remove_feature hits several rows)
+        cls = rows[-1]["cls"] if rows and rng.random() < 0.2 else clspool[i]
+        base = {"tomo": rng.choice(tomos), "sid": sids[i], "cls": cls, "e": e}
         if mode == "export":
             base.update({"x": pos, "s": [rng.randint(-48, 48) for _ in range(3)]})
         else:
@@ -482,7 +514,34 @@ def gen_case(rng, n):
         rows.append(base)
     c = {"mode": mode, "v": v, "px": list(px), "fmt": fmt}
     c["parts" if mode == "export" else "rin"] = rows
+    if mode == "export":
+        c["hist"] = gen_hist(rng, [r["cls"] for r in rows])
     return c
+
+
+def gen_hist(rng, classes):
+    """0-2 list operations between construction and export (load -> clean -> export); at least one particle survives."""
+    hist = []
+    if rng.random() < 0.4:
+        return hist
+    live = list(classes)
+    for _ in range(rng.randint(1, 2)):
+        n = len(live)
+        k = rng.random()
+        if k < 0.4 and len(set(live)) > 1:
+            c = rng.choice(live)
+            hist.append({"op": "remove", "cls": c, "idx": []})
+            live = [x for x in live if x != c]
+            continue
+        if k < 0.65:
+            idx = sorted(rng.sample(range(1, n + 1), rng.randint(1, n)))           # df[mask]
+        elif k < 0.9:
+            idx = rng.sample(range(1, n + 1), n)                                   # sort_values
+        else:
+            idx = rng.sample(range(1, n + 1), rng.randint(1, n))                   # iloc
+        hist.append({"op": "select", "cls": 0, "idx": idx})
+        live = [live[i - 1] for i in idx]
+    return hist
 
 
 def run_seeded(ctx, sizes, nfiles):
